@@ -17,6 +17,19 @@
 //!      C40 cmp op=<op> cfg=<…>   ->  same | differ        (the model's answer is `same`:
 //!                                                          the prediction of `twins_equal`)
 //!    A difference is an oracle failure of class `sync-async-differ:<op>`.
+//!
+//! 3. **Hand-written pairs and the inventory.** `fn X_async` functions that appear in the source
+//!    are not macro expansions. The harness scans sdk/src on its own (line based, no lexer) and
+//!    the model answers from the regenerated table:
+//!      C40 inv attrs=<n> pairs=<file:X,…> orphans=<file:X,…>   ->  ok | <differences>
+//!      C40 hand file=<f> fn=<X>                                 ->  <kind of the reviewed entry>
+//!      C40 handops                                              ->  <differential operations the
+//!                                                                   reviewed entries name>
+//!    and drives the pairs whose bodies differ through both forms: `Ingredient::from_stream` vs
+//!    `from_stream_async` / `from_memory_async` (thread-local settings, one thread per call),
+//!    and — through `Reader::with_stream(_async)` with identity decoding on and the same scripted
+//!    transport behind `SyncHttpResolver` and `AsyncHttpResolver` — the hand-written
+//!    `IcaSignatureVerifier::check_signature(_async)` and `did_web::resolve(_async)`.
 
 use std::{
     future::Future,
@@ -28,7 +41,12 @@ use async_generic::async_generic;
 use async_trait::async_trait;
 use c2pa::{
     assertions::{BoxHash, DataHash},
-    hash_stream_by_alg, AsyncSigner, Builder, Context, Error, HashRange, ProgressPhase, Reader, Signer, SigningAlg,
+    hash_stream_by_alg,
+    http::{
+        http::{Request, Response},
+        AsyncHttpResolver, HttpResolverError, SyncHttpResolver,
+    },
+    AsyncSigner, Builder, Context, Error, HashRange, Ingredient, ProgressPhase, Reader, Signer, SigningAlg,
 };
 use vh::common::{canon_json, fixtures, guarded, main_with, Rng, Run};
 use vh::sign::{definition, unsigned_sources};
@@ -875,6 +893,296 @@ fn settings_signer_both(cmp: &mut Cmp, fmt: &str, src: &[u8]) {
     cmp.both("settings-signer", fmt, &mut one);
 }
 
+// ---------------------------------------------------------------------------------------------
+// Part 3: hand-written pairs
+
+/// Independent inventory of sdk/src (line based): `#[async_generic` attribute lines, and per file
+/// the function names `X` with both `fn X` and `fn X_async` (pairs) or only `fn X_async` (orphans).
+fn inventory_scan(run: &mut Run) {
+    fn walk(dir: &std::path::Path, out: &mut Vec<std::path::PathBuf>) {
+        let mut es: Vec<_> = std::fs::read_dir(dir).map(|d| d.filter_map(|e| e.ok()).map(|e| e.path()).collect()).unwrap_or_default();
+        es.sort();
+        for p in es {
+            if p.is_dir() {
+                if p.file_name().map(|n| n != "verif_hooks").unwrap_or(true) {
+                    walk(&p, out);
+                }
+            } else if p.extension().map(|e| e == "rs").unwrap_or(false) {
+                out.push(p);
+            }
+        }
+    }
+    let root = std::path::Path::new("/repo/sdk/src");
+    let mut files = vec![];
+    walk(root, &mut files);
+    let (mut attrs, mut pairs, mut orphans) = (0usize, vec![], vec![]);
+    for f in &files {
+        let raw = std::fs::read_to_string(f).unwrap_or_default();
+        // drop block comments (nesting allowed), keeping the line structure
+        let mut text = String::with_capacity(raw.len());
+        let (rb, mut i, mut depth) = (raw.as_bytes(), 0usize, 0usize);
+        while i < rb.len() {
+            if depth == 0 && rb[i..].starts_with(b"//") {
+                while i < rb.len() && rb[i] != b'\n' {
+                    text.push(rb[i] as char);
+                    i += 1;
+                }
+            } else if rb[i..].starts_with(b"/*") {
+                depth += 1;
+                i += 2;
+            } else if depth > 0 && rb[i..].starts_with(b"*/") {
+                depth -= 1;
+                i += 2;
+            } else {
+                if depth == 0 || rb[i] == b'\n' {
+                    text.push(rb[i] as char);
+                }
+                i += 1;
+            }
+        }
+        let rel = f.strip_prefix(root).unwrap().to_string_lossy().replace('\\', "/");
+        let mut names = std::collections::BTreeSet::new();
+        for line in text.lines() {
+            let t = line.trim_start();
+            if t.starts_with("//") {
+                continue;
+            }
+            if t.starts_with("#[async_generic") {
+                attrs += 1;
+            }
+            let b = t.as_bytes();
+            let mut i = 0;
+            while let Some(k) = t[i..].find("fn ") {
+                let at = i + k;
+                let before_ok = at == 0 || !(b[at - 1].is_ascii_alphanumeric() || b[at - 1] == b'_');
+                let rest = &t[at + 3..];
+                let name: String = rest.chars().take_while(|c| c.is_ascii_alphanumeric() || *c == '_').collect();
+                if before_ok && !name.is_empty() && !name.as_bytes()[0].is_ascii_digit() {
+                    names.insert(name);
+                }
+                i = at + 3;
+            }
+        }
+        for n in &names {
+            if let Some(stem) = n.strip_suffix("_async") {
+                if stem.is_empty() {
+                    continue;
+                }
+                if names.contains(stem) {
+                    pairs.push(format!("{rel}:{stem}"));
+                } else {
+                    orphans.push(format!("{rel}:{stem}"));
+                }
+            }
+        }
+    }
+    let j = |v: &Vec<String>| if v.is_empty() { "-".to_string() } else { v.join(",") };
+    run.case(format!("C40 inv attrs={attrs} pairs={} orphans={}", j(&pairs), j(&orphans)), "ok".to_string());
+    run.count("inventory_scan");
+    run.obligations.insert("inventory-scan-found-attributes-and-hand-pairs".to_string(), attrs > 0 && !pairs.is_empty());
+    // how the pairs this harness drives are accounted for in the reviewed list
+    for (file, f, kind) in [
+        ("ingredient.rs", "from_stream", "differential:ingredient-from-stream"),
+        ("identity/claim_aggregation/ica_signature_verifier.rs", "check_signature", "twinBodyLabel"),
+        ("identity/claim_aggregation/w3c_vc/did_web.rs", "resolve", "twinBody"),
+        ("identity/x509/x509_signature_verifier.rs", "check_signature", "twinBody"),
+        ("identity/identity_assertion/built_in_signature_verifier.rs", "check_signature", "twinBody"),
+    ] {
+        run.case(format!("C40 hand file={file} fn={f}"), kind.to_string());
+    }
+}
+
+/// `Ingredient::from_stream` (sync, through the generic `add_stream_internal`) against the
+/// hand-written `from_stream_async` (kind 1) or `from_memory_async` (kind 2). Both read the
+/// thread-local settings: every call runs on a thread of its own that installs them first.
+fn legacy_ingredient_both(cmp: &mut Cmp, op: &str, kind: u8, name: &str, hint: &str, data: &[u8], sname: &str, sextra: &serde_json::Value) {
+    let mut settings = base_settings();
+    merge(&mut settings, sextra);
+    let settings = settings.to_string();
+    let mut one = |is_async: bool| -> Outc {
+        let res = std::thread::scope(|sc| {
+            sc.spawn(|| {
+                guarded(std::panic::AssertUnwindSafe(|| -> c2pa::Result<String> {
+                    #[allow(deprecated)]
+                    {
+                        c2pa::settings::Settings::from_string(&settings, "json")?;
+                        let ing = if !is_async {
+                            Ingredient::from_stream(hint, &mut Cursor::new(data.to_vec()))?
+                        } else if kind == 1 {
+                            block_on(Ingredient::from_stream_async(hint, &mut Cursor::new(data.to_vec())))?
+                        } else {
+                            block_on(Ingredient::from_memory_async(hint, data))?
+                        };
+                        Ok(abstract_json(&serde_json::to_string(&ing).unwrap_or_default()))
+                    }
+                }))
+            })
+            .join()
+            .unwrap_or_else(|_| Err("thread".to_string()))
+        });
+        finish(res, |s| s, String::new())
+    };
+    cmp.both(op, &format!("{name},hint={hint},{sname}"), &mut one);
+}
+
+/// The same scripted transport behind both resolver traits.
+#[derive(Clone)]
+enum Net {
+    NotFound,
+    IoErr,
+    Body(Vec<u8>),
+}
+
+struct MockNet(Net);
+
+impl MockNet {
+    fn serve(&self) -> Result<Response<Box<dyn std::io::Read>>, HttpResolverError> {
+        match &self.0 {
+            Net::IoErr => Err(HttpResolverError::Io(std::io::Error::other("scripted"))),
+            Net::NotFound => Response::builder().status(404).body(Box::new(std::io::empty()) as Box<dyn std::io::Read>).map_err(HttpResolverError::Http),
+            Net::Body(b) => Response::builder().status(200).body(Box::new(Cursor::new(b.clone())) as Box<dyn std::io::Read>).map_err(HttpResolverError::Http),
+        }
+    }
+}
+
+impl SyncHttpResolver for MockNet {
+    fn http_resolve(&self, _request: Request<Vec<u8>>) -> Result<Response<Box<dyn std::io::Read>>, HttpResolverError> {
+        self.serve()
+    }
+}
+
+#[async_trait]
+impl AsyncHttpResolver for MockNet {
+    async fn http_resolve_async(&self, _request: Request<Vec<u8>>) -> Result<Response<Box<dyn std::io::Read>>, HttpResolverError> {
+        self.serve()
+    }
+}
+
+/// Read with identity-assertion decoding on (the default): `Manifest::from_store(_async)` runs
+/// `validate_partial_claim(_async)`, which for `cawg.identity_claims_aggregation` calls the
+/// hand-written `IcaSignatureVerifier::check_signature(_async)` (and for `did:web` issuers the
+/// hand-written `did_web::resolve(_async)` over the scripted transport).
+fn identity_read_both(cmp: &mut Cmp, name: &str, data: &[u8], net: &Net, nname: &str) {
+    let mut one = |is_async: bool| -> Outc {
+        let tr: Trace = Default::default();
+        let res = guarded(std::panic::AssertUnwindSafe(|| -> c2pa::Result<Reader> {
+            let c = ctx(&serde_json::json!({"core": {"decode_identity_assertions": true}}), &tr)?
+                .with_resolver(MockNet(net.clone()))
+                .with_resolver_async(MockNet(net.clone()));
+            if is_async {
+                block_on(Reader::from_context(c).with_stream_async("image/jpeg", Cursor::new(data.to_vec())))
+            } else {
+                Reader::from_context(c).with_stream("image/jpeg", Cursor::new(data.to_vec()))
+            }
+        }));
+        let trace = trace_exact(&tr);
+        finish(res, |r| reader_exact(&r), trace)
+    };
+    // coverage evidence: the synchronous read reports statuses of the ICA verifier / did:web resolution
+    let probe = one(false);
+    if probe.report.contains("cawg.ica.") {
+        cmp.run.count("identity_read_reaches_ica_verifier");
+    }
+    if probe.report.contains("did:web") {
+        cmp.run.count("identity_read_mentions_did_web");
+    }
+    cmp.both("read-identity", &format!("{name},net={nname}"), &mut one);
+}
+
+fn hand_written_pairs(cmp: &mut Cmp, rng: &mut Rng, signed: &[(&'static str, Vec<u8>)], svars: &[(&'static str, serde_json::Value)], thorough: bool) {
+    // ---- Ingredient::from_stream / from_stream_async / from_memory_async
+    let max = if thorough { 2_600_000 } else { 450_000 };
+    let mut inputs: Vec<(String, &str, Vec<u8>)> = signed.iter().filter(|(_, d)| d.len() <= max).map(|(f, d)| (format!("signed:{f}"), *f, d.clone())).collect();
+    for (name, fmt) in [
+        ("CA.jpg", "image/jpeg"),
+        ("C.jpg", "image/jpeg"),
+        ("CACA.jpg", "image/jpeg"),
+        ("XCA.jpg", "image/jpeg"),
+        ("E-sig-CA.jpg", "image/jpeg"),
+        ("CIE-sig-CA.jpg", "image/jpeg"),
+        ("cloud.jpg", "image/jpeg"),
+        ("IMG_0003.jpg", "image/jpeg"),
+        ("boxhash.jpg", "image/jpeg"),
+        ("video1.mp4", "video/mp4"),
+        ("legacy.mp4", "video/mp4"),
+        ("sample1.svg", "image/svg+xml"),
+        ("cloud_manifest.c2pa", "application/c2pa"),
+    ] {
+        if let Ok(d) = std::fs::read(fixtures().join(name)) {
+            if d.len() <= max {
+                inputs.push((name.to_string(), fmt, d));
+            }
+        }
+    }
+    for (name, fmt, data) in &inputs {
+        for (sn, se) in [&svars[0], &svars[2]] {
+            legacy_ingredient_both(cmp, "ingredient-from-stream", 1, name, fmt, data, sn, se);
+        }
+        legacy_ingredient_both(cmp, "ingredient-from-memory", 2, name, fmt, data, svars[0].0, &svars[0].1);
+        legacy_ingredient_both(cmp, "ingredient-from-stream", 1, name, "xyz/unknown", data, svars[0].0, &svars[0].1);
+    }
+    let pool: Vec<&(String, &str, Vec<u8>)> = inputs.iter().filter(|(_, f, d)| ["image/jpeg", "image/png", "video/mp4"].contains(f) && d.len() < 400_000).collect();
+    let n_mut = if thorough { 1500 } else { 120 };
+    for i in 0..n_mut {
+        if pool.is_empty() {
+            break;
+        }
+        let (name, fmt, data) = pool[i % pool.len()];
+        let m = mutate(rng, data);
+        legacy_ingredient_both(cmp, "ingredient-from-stream", 1, &format!("mut{i}:{name}"), fmt, &m, svars[0].0, &svars[0].1);
+        if i % 4 == 0 {
+            legacy_ingredient_both(cmp, "ingredient-from-memory", 2, &format!("mut{i}:{name}"), fmt, &m, svars[0].0, &svars[0].1);
+        }
+    }
+    for h in ["image/jpeg", "image/png", "video/mp4", "application/c2pa", "xyz/unknown"] {
+        legacy_ingredient_both(cmp, "ingredient-from-stream", 1, "empty", h, &[], svars[0].0, &svars[0].1);
+        let g = rng.bytes(300);
+        legacy_ingredient_both(cmp, "ingredient-from-stream", 1, "garbage", h, &g, svars[0].0, &svars[0].1);
+    }
+
+    // ---- identity assertions: ICA (hand-written check_signature pair) and X.509 fixtures
+    let ica_dir = std::path::Path::new("/repo/sdk/src/identity/tests/fixtures/claim_aggregation");
+    let mut idfx: Vec<(String, Vec<u8>)> = vec![];
+    let mut names: Vec<std::path::PathBuf> = std::fs::read_dir(ica_dir.join("ica_validation")).map(|d| d.filter_map(|e| e.ok()).map(|e| e.path()).collect()).unwrap_or_default();
+    names.push(ica_dir.join("adobe_connected_identities.jpg"));
+    names.push(ica_dir.join("ims_multiple_manifests.jpg"));
+    names.push(fixtures().join("C_with_CAWG_data.jpg"));
+    names.sort();
+    for p in names {
+        if p.extension().map(|e| e == "jpg").unwrap_or(false) {
+            if let Ok(d) = std::fs::read(&p) {
+                idfx.push((p.file_name().unwrap().to_string_lossy().to_string(), d));
+            }
+        }
+    }
+    cmp.run.obligations.insert("identity-fixtures-present".to_string(), idfx.len() >= 20);
+    let did_doc = br#"{"@context":["https://www.w3.org/ns/did/v1"],"id":"did:web:verif.invalid","assertionMethod":[]}"#.to_vec();
+    let nets = [("404", Net::NotFound), ("io", Net::IoErr), ("doc", Net::Body(did_doc)), ("junk", Net::Body(b"not json".to_vec()))];
+    for (name, data) in &idfx {
+        for (nn, net) in nets.iter().take(if thorough { 4 } else { 2 }) {
+            identity_read_both(cmp, name, data, net, nn);
+        }
+    }
+    // mutated identity fixtures (bytes inside the manifest store: the assertion, the COSE, the VC)
+    let n_idmut = if thorough { 600 } else { 60 };
+    for i in 0..n_idmut {
+        if idfx.is_empty() {
+            break;
+        }
+        let (name, data) = &idfx[i % idfx.len()];
+        let m = mutate(rng, data);
+        identity_read_both(cmp, &format!("mut{i}:{name}"), &m, &nets[i % 2].1, nets[i % 2].0);
+    }
+
+    let reached = cmp.run.dist.get("identity_read_reaches_ica_verifier").copied().unwrap_or(0);
+    cmp.run.obligations.insert("identity-reads-reach-ica-verifier".to_string(), reached > 0);
+
+    // which differential operations ran and agreed at least once: the reviewed entries of the
+    // model must name exactly these (`handops`)
+    let ran: Vec<&str> = ["ingredient-from-memory", "ingredient-from-stream"].into_iter().filter(|op| cmp.run.nontrivial.iter().any(|k| k.starts_with(&format!("{op} ")))).collect();
+    cmp.run.case("C40 handops".to_string(), ran.join(","));
+}
+
 fn mutate(rng: &mut Rng, data: &[u8]) -> Vec<u8> {
     let mut d = data.to_vec();
     if d.is_empty() {
@@ -916,6 +1224,7 @@ pub fn run(run: &mut Run, rng: &mut Rng) {
     run.rule = "part 1: every (function, flavour, condition mask, loop counter, failing step) of six functions expanded by the real async-generic macro, trace compared with the model's evalF. part 2: each public sync/async pair (sign, save_to_stream, read, read with manifest data, fragment read, add_ingredient_from_stream, add_ingredient_from_archive, sign_data_hashed_embeddable, sign_box_hashed_embeddable) on the same inputs with the same signing code behind Signer and AsyncSigner; formats x definitions x settings x algorithms x failing signers x (wrong) hints x fixtures with failures x mutated assets. non-trivial = a comparison in which both flavours ran to an outcome and agreed; distinct by (operation, configuration, outcome class)".to_string();
     let thorough = run.thorough();
     macro_cases(run);
+    inventory_scan(run);
 
     let max_src = if thorough { 2_600_000 } else { 450_000 };
     let sources: Vec<(&'static str, Vec<u8>)> = unsigned_sources()
@@ -1098,4 +1407,7 @@ pub fn run(run: &mut Run, rng: &mut Rng) {
             box_hashed_both(&mut cmp, "image/jpeg", alg, fail, sn, se);
         }
     }
+
+    // ---- hand-written pairs (not macro expansions)
+    hand_written_pairs(&mut cmp, rng, &signed, &svars, thorough);
 }
